@@ -292,15 +292,29 @@ func vRunC14(c *vCase) {
 	// (a) builders directly
 	nA := 20
 	var shapes []string
+	var prevRec *DataRecord
+	var prevMR, prevMS [][]byte
 	for i := 0; i < nA; i++ {
 		rec := vGenWireRecord(r, i == 0 && (c.Tier == "thorough" || c.Idx%3 == 0))
 		shapes = append(shapes, fmt.Sprintf("ch%d/n%d/f%d/c%d", rec.channelIndex, len(rec.data), rec.trigFrame, len(rec.modelCoefs)))
-		if !vCheckRecordMsg(c, messageRecords(rec), rec) {
+		mr := messageRecords(rec)
+		if !vCheckRecordMsg(c, mr, rec) {
 			return
 		}
-		if !vCheckSummaryMsg(c, messageSummaries(rec), rec) {
+		ms := messageSummaries(rec)
+		if !vCheckSummaryMsg(c, ms, rec) {
 			return
 		}
+		// a message stays what it was while later messages are built (the publisher hands messages to the socket one
+		// after the other): the frames built for this record are checked again after those of the next record exist
+		if prevRec != nil {
+			if !vCheckRecordMsg(c, prevMR, prevRec) || !vCheckSummaryMsg(c, prevMS, prevRec) {
+				c.Note("the message had decoded correctly before the next record's messages were built: its frames share memory with later ones")
+				return
+			}
+			c.Cov("messages_rechecked_after_later_ones", 2)
+		}
+		prevRec, prevMR, prevMS = rec, mr, ms
 	}
 	c.Describe("C14 direct x%d %v + wire x12", nA, shapes)
 	if !vW.ok {
